@@ -95,7 +95,9 @@ CHECKS["C10"] = ("Proof: C10.placement_rule — a file offered while the cursor 
                  "leaves every catalog slot of every side as it was or appears in exactly one slot of one side that held nothing, with its whole "
                  "content (never split, never twice); the cursor never moves back and sides behind it are untouched; C10.always_completes — on a "
                  "consistent image every batch returns 0 and writes exactly one archive of four consistent sides (sources dropped after the fourth "
-                 "side included). Report sections = image sides is checked, not proved. Tie/oracle: interleavings of files "
+                 "side included); report_sections_match_image — every file the create/add report announces stored in the section of side k is, in the "
+                 "image the batch leaves, on side k, in a slot that held nothing before, with the announced size and block count "
+                 "(file_announced_where_stored: per file, announced in section k iff received on side k). Tie/oracle: interleavings of files "
                  "and --eos on fresh / partially filled images; report sections and decoded image vs an independent replay of the placement rule.", D, "7 C10")
 CHECKS["C11"] = ("Proof: the payload setter never changes the sector length and overwrites exactly min(|v|,256) bytes (any length); save length "
                  "= sides x 1280 x sector size; .sd = .fd payloads with FF interleaved; both tools compute the same sides; load then save is the "
